@@ -234,13 +234,26 @@ func RunCaseOpts(c *Case, pick func(n int) int, o RunOpts) *Result {
 			continue
 		}
 		// The world is idle: nothing pending, nothing logged for `idle`.
+		st, _ := w.Status()
+		out := r.Outstanding()
 		if len(client) > 0 {
+			if client[0].Kind == "start" && !isTerminal(st) && time.Since(silentSince) <= Quiet {
+				// "started again afterwards": a restart is only meaningful once the run has ended
+				if out == 0 && (st == pipeline.StatusRunning || st == pipeline.StatusRecovering) && finalStops < 6 {
+					finalStops++
+					if c.HasHold() {
+						r.issue(ClientAction{Kind: "forcestop"})
+					} else {
+						r.issue(ClientAction{Kind: "stopwait"})
+					}
+					silentSince = time.Now()
+				}
+				continue
+			}
 			r.issue(client[0])
 			client = client[1:]
 			continue
 		}
-		st, _ := w.Status()
-		out := r.Outstanding()
 		if out == 0 && start.Returned && start.err != nil && !isTerminal(st) && st != pipeline.StatusRunning && st != pipeline.StatusRecovering {
 			break // never started
 		}
@@ -250,7 +263,12 @@ func RunCaseOpts(c *Case, pick func(n int) int, o RunOpts) *Result {
 		if out == 0 && (st == pipeline.StatusRunning || st == pipeline.StatusRecovering) && finalStops < 6 {
 			// End of script: drain the pipeline with a graceful stop.
 			finalStops++
-			r.issue(ClientAction{Kind: "stopwait"})
+			if c.HasHold() {
+				// a plugin that never answers can only be ended by force
+				r.issue(ClientAction{Kind: "forcestop"})
+			} else {
+				r.issue(ClientAction{Kind: "stopwait"})
+			}
 			silentSince = time.Now()
 			continue
 		}
